@@ -275,7 +275,16 @@ pub fn format_blame_metadata(
         let field = match placeholder.placeholder {
             Some(Placeholder::Str("timestamp")) => {
                 Some(Cow::from(match &config.blame_timestamp_output_format {
-                    Some(time_format) => blame.time.format(time_format).to_string(),
+                    Some(time_format) => {
+                        // For an invalid format (e.g. "%Q") the Display implementation returns an
+                        // error, with which `to_string` would panic.
+                        use std::fmt::Write;
+                        let mut formatted = String::new();
+                        match write!(formatted, "{}", blame.time.format(time_format)) {
+                            Ok(()) => formatted,
+                            Err(_) => blame.time.to_string(),
+                        }
+                    }
                     None => chrono_humanize::HumanTime::from(blame.time).to_string(),
                 }))
             }
